@@ -130,9 +130,29 @@ class reversed_ids:
         del L.id
 
 
-def analyze_direct(rec, scale, rev=False, S=512):
+# LAParams values the specification's 32-bit ratios cannot carry, and the ratio that stands for them: on a page of
+# integer unit coordinates every margin beyond the page behaves like <<1000, 1>> and every positive margin below one
+# unit like <<1, 1024>> (all comparisons are between integers and the margin times a glyph size of at most 24 units)
+HUGE = (1000, 1)
+TINY = (1, 1024)
+ALIASES = {HUGE: [1e12, 1e15, float("inf")], TINY: [1e-9, 2.0 ** -40]}
+FIELDS = {"lm": "line_margin", "cm": "char_margin", "wm": "word_margin"}
+
+
+def la_aliases(p):
+    """[(field, value)]: extreme-but-valid values that must give the outcome of this record's LAParams"""
+    out = []
+    for f in FIELDS:
+        for v in ALIASES.get(tuple(p[f]), ()):
+            out.append((f, v))
+    return out
+
+
+def analyze_direct(rec, scale, rev=False, S=512, alias=None):
     root, cont, chars, items = build_direct(rec, scale, S)
     la = la_of(rec["p"])
+    if alias is not None:
+        setattr(la, FIELDS[alias[0]], alias[1])
     if rev:
         with reversed_ids():
             root.analyze(la)
